@@ -9,9 +9,12 @@ package main
 //   pack      pool -> ApplyPolicyToTxSet -> block -> bytes -> replica; limits evaluated directly
 
 import (
+	"bytes"
 	"encoding/json"
 	"errors"
 	"fmt"
+	"os"
+	"path/filepath"
 	"sort"
 	"strings"
 	"testing"
@@ -27,6 +30,8 @@ import (
 	"github.com/nspcc-dev/neo-go/pkg/io"
 	"github.com/nspcc-dev/neo-go/pkg/neotest"
 	"github.com/nspcc-dev/neo-go/pkg/neotest/chain"
+	"github.com/nspcc-dev/neo-go/pkg/smartcontract"
+	"github.com/nspcc-dev/neo-go/pkg/smartcontract/scparser"
 	"github.com/nspcc-dev/neo-go/pkg/util"
 	"github.com/nspcc-dev/neo-go/pkg/vm"
 	"github.com/nspcc-dev/neo-go/pkg/vm/opcode"
@@ -365,6 +370,26 @@ func c07RunBoundary(co *caseOut, in c07ShapeIn) {
 				}
 				continue
 			}
+			// the witness as bytes, with the keys and signatures it was built from
+			var keysB, sigsB [][]byte
+			if a.M == 0 {
+				keysB = [][]byte{w.VerificationScript[2:35]}
+			} else if _, pubs, ok := scparser.ParseMultiSigContract(w.VerificationScript); ok {
+				keysB = pubs
+			}
+			for o := 0; o+66 <= len(w.InvocationScript); o += 66 {
+				sigsB = append(sigsB, w.InvocationScript[o+2:o+66])
+			}
+			bl := func(bs [][]byte) string {
+				ss := make([]string, len(bs))
+				for i, b := range bs {
+					ss[i] = coqBytes(b)
+				}
+				return "[" + strings.Join(ss, ";") + "]"
+			}
+			co.add("script", fmt.Sprintf("%d-of-%d", a.M, a.N), a.M != 0, si,
+				map[string]any{"ver": hx(w.VerificationScript), "inv_len": len(w.InvocationScript), "vm_gas": gas},
+				fmt.Sprintf("CScript %d %d %s %s %s %s %d", base, a.M, bl(keysB), bl(sigsB), coqBytes(w.VerificationScript), coqBytes(w.InvocationScript), gas))
 			co.add("shape", fmt.Sprintf("%d-of-%d", a.M, a.N), a.M != 0, si, impl,
 				fmt.Sprintf("CShape %d %s %s %s %d %d %d %d %d", base, a.coqShape(), c08Ints(inv), c08Ints(ver),
 					len(w.VerificationScript), cf, cs, gas, io.GetVarSize(&w)))
@@ -411,6 +436,35 @@ func c07Dispatch(co *caseOut, kind string, raw json.RawMessage) error {
 		f()
 	}
 	switch kind {
+	case "builder":
+		var in c07ShapeIn
+		if err := json.Unmarshal(raw, &in); err != nil {
+			return err
+		}
+		run(func() {
+			rr := newRng(in.Seed)
+			m, n := in.Shapes[0][0], in.Shapes[0][1]
+			pubs := make(keys.PublicKeys, n)
+			for i := range pubs {
+				pubs[i] = c07Key(rr).PublicKey()
+			}
+			script, err := smartcontract.CreateMultiSigRedeemScript(m, pubs)
+			if err != nil {
+				panic(c07Fail{err.Error()})
+			}
+			// the keys in the order the builder wrote them
+			_, ordered, ok := scparser.ParseMultiSigContract(script)
+			if !ok {
+				co.violation("builder", fmt.Sprintf("the %d-of-%d script is not recognised as a multi-signature contract", m, n), in, hx(script))
+				return
+			}
+			var kh strings.Builder
+			for _, b := range ordered {
+				kh.WriteString(hx(b))
+			}
+			co.add("builder", fmt.Sprintf("%d-of-%d", m, n), true, in, map[string]any{"len": len(script)},
+				fmt.Sprintf("CBuilder %d %s %s", m, c07HexPieces(kh.String()), c07HexPieces(hx(script))))
+		})
 	case "shape", "boundary":
 		var in c07ShapeIn
 		if err := json.Unmarshal(raw, &in); err != nil {
@@ -451,7 +505,7 @@ func runC07(args []string) error {
 	cf, fs := parseCommon("c07", args)
 	fs.Parse(args)
 	co := newCaseOut(cf.out, "Harness.C07", "N",
-		"shape/boundary: every signer shape 1-of-1 .. 8-of-8 and single signature (thorough: sampled up to 200 keys, beyond the verification gas limit too) at the calculated fee -1/0/+1, and 2-3 signer mixes; "+
+		"shape/script/boundary: every signer shape 1-of-1 .. 16-of-16 and single signature (real witness bytes against the byte-level script model, the NeoVM model run on them against the real VM's gas); builder: CreateMultiSigRedeemScript bytes at the emit.Int width boundaries up to 1024 keys (thorough: sampled up to 200 keys, beyond the verification gas limit too) at the calculated fee -1/0/+1, and 2-3 signer mixes; "+
 			"admit: a funded sender's transaction valid or made invalid in 1-2 chosen respects (system fee cap, script, expiry, not yet valid, blocked signer, size, fee below size*feePerByte+attribute fees, already on chain, named as conflict on chain, wrong signature, wrong witness script, attribute rules, balance, duplicate, pool conflict); "+
 			"wstate: a transaction co-signed by a non-standard verification script (Ledger.currentIndex < or >= N, GAS.balanceOf(X) < v, constant true) or a deployed contract's verify method, submitted, then 1-4 blocks that flip the witness or not; "+
 			"chist: 1-3 on-chain transactions naming the same hash in Conflicts, co-signed by the later submitter and/or a stranger, in blocks up to MaxTraceableBlocks+2 apart on a chain with MaxTraceableBlocks 6..12, then the named transaction submitted 0..MaxTraceableBlocks+1 blocks later; "+
@@ -472,7 +526,7 @@ func runC07(args []string) error {
 				return err
 			}
 		}
-		return co.finish()
+		return c07Finish(co)
 	}
 	r := newRng(cf.seed*0x2545F491 + 7)
 	thorough := cf.tier == "thorough"
@@ -480,7 +534,8 @@ func runC07(args []string) error {
 	// boundary: all shapes up to 8-of-8 (quick), each at delta -1 and 0; +1 for a sample
 	var shapes [][2]int
 	shapes = append(shapes, [2]int{0, 0})
-	for n := 1; n <= 8; n++ {
+	maxN := 16
+	for n := 1; n <= maxN; n++ {
 		for m := 1; m <= n; m++ {
 			shapes = append(shapes, [2]int{m, n})
 		}
@@ -501,6 +556,17 @@ func runC07(args []string) error {
 		if r.chance(15) {
 			c07Dispatch(co, "boundary", enc(c07ShapeIn{Seed: r.next(), Shapes: [][2]int{s}, Delta: 1}))
 		}
+	}
+	// the multisig builder alone, at the widths of emit.Int and up to 1024 keys
+	bshapes := [][2]int{{16, 17}, {17, 17}, {1, 127}, {127, 128}, {128, 129}, {3, 255}, {255, 256}, {1, 1024}, {1024, 1024}}
+	if thorough {
+		for i := 0; i < 30; i++ {
+			n := 17 + r.intn(1008)
+			bshapes = append(bshapes, [2]int{1 + r.intn(n), n})
+		}
+	}
+	for _, s := range bshapes {
+		c07Dispatch(co, "builder", enc(c07ShapeIn{Seed: r.next(), Shapes: [][2]int{s}}))
 	}
 	nmix := cf.n / 12
 	for i := 0; i < nmix; i++ {
@@ -538,7 +604,38 @@ func runC07(args []string) error {
 	}
 	sort.Strings(keys)
 	co.extra["x_respects"] = keys
-	return co.finish()
+	return c07Finish(co)
+}
+
+// c07HexPieces: a long hexadecimal string as a Coq list of short string literals.
+func c07HexPieces(h string) string {
+	var ps []string
+	for len(h) > 2048 {
+		ps = append(ps, coqStr(h[:2048])+"%string")
+		h = h[2048:]
+	}
+	ps = append(ps, coqStr(h)+"%string")
+	return "[" + strings.Join(ps, ";") + "]"
+}
+
+// c07Finish: Harness/C07.v exports Coq's String library (hexadecimal strings in builder cases), which shadows
+// List.concat in the generated files: qualify it.
+func c07Finish(co *caseOut) error {
+	if err := co.finish(); err != nil {
+		return err
+	}
+	files, _ := filepath.Glob(filepath.Join(co.dir, "cases_*.v"))
+	for _, f := range files {
+		b, err := os.ReadFile(f)
+		if err != nil {
+			return err
+		}
+		nb := bytes.Replace(b, []byte("(concat cases)"), []byte("(List.concat cases)"), 1)
+		if err := os.WriteFile(f, nb, 0o644); err != nil {
+			return err
+		}
+	}
+	return nil
 }
 
 var c07Seen = map[string]int{}
